@@ -614,6 +614,19 @@ class BuiltinsMixin:
         self.store_lvalue(s, bm.lv, self.set_add(r, args[0]))
         return [(s, Val(NONE, None))]
 
+    def m_set_update(self, s, r, args, kw, node, bm):
+        outs = self.m_set_union(s, r, args, kw, node, bm)
+        res = []
+        for s2, v in outs:
+            self.store_lvalue(s2, bm.lv, v)
+            res.append((s2, Val(NONE, None)))
+        return res
+
+    def m_set_discard(self, s, r, args, kw, node, bm):
+        e = self.coerce(args[0], r.ty.args[0])
+        self.store_lvalue(s, bm.lv, Val(r.ty, z3.Store(r.t, e.t, z3.BoolVal(False))))
+        return [(s, Val(NONE, None))]
+
     def m_set_union(self, s, r, args, kw, node, bm):
         o = args[0]
         if r.meta and r.meta.get("empty"):
@@ -624,6 +637,8 @@ class BuiltinsMixin:
             o = self.coerce(o, r.ty)
         if o.ty.kind == "seq":
             o = self.seq_elems(o)
+        if o.ty.kind == "tuple":
+            o = self.bi_set(s, [o], {}, node)[0][1]
         return [(s, self.set_union(r, self.coerce(o, r.ty)))]
 
     def m_set_intersection(self, s, r, args, kw, node, bm):
@@ -868,6 +883,12 @@ class BuiltinsMixin:
             comprehension over the same heap is the same term) with the two membership axioms."""
         insts = self.comp_instances(generators, st, setlike=True)
         vals = [(i, self.ev_under_binder(elt, i.st)) for i in insts]
+        if vals and all(not i.bound and (v.is_py or z3.is_string_value(v.t) or z3.is_int_value(v.t)) for i, v in vals):
+            gs = [z3.simplify(i.guard) for i, _ in vals]
+            if all(z3.is_true(g) or z3.is_false(g) for g in gs):
+                def conc(v):
+                    return v.t if v.is_py else (v.t.as_string() if z3.is_string_value(v.t) else v.t.as_long())
+                return py({conc(v) for (i, v), g in zip(vals, gs) if z3.is_true(g)})   # fully concrete comprehension
         vals = [(i, v if not v.is_py else self.lift(v.t)) for i, v in vals]
         if not vals:
             return Val(TSet(PY), None, {"empty": True})
@@ -951,6 +972,21 @@ class BuiltinsMixin:
                     c = self.contracts.get(self.qualname_of(val.fget))
                     if c is not None and getattr(c, "idempotent", False):
                         cands.append(node)
+        # calls of contracted *pure* functions (result a function of the arguments, no frame) whose arguments do not
+        # mention the comprehension variables
+        import types as _t
+        for node in ast.walk(comp):
+            if isinstance(node, ast.Call) and isinstance(node.func, ast.Name):
+                if any(isinstance(x, ast.Name) and x.id in targets for a in node.args + [k.value for k in node.keywords] for x in ast.walk(a)):
+                    continue
+                try:
+                    f = self.lookup(node.func.id, st)
+                except Unsupported:
+                    continue
+                if f.is_py and isinstance(f.t, _t.FunctionType):
+                    c = self.contracts.get(self.qualname_of(f.t))
+                    if c is not None and getattr(c, "pure", False) and not c.inline:
+                        cands.append(node)
         if not cands:
             return [(st, comp)]
         new = copy.deepcopy(comp)
@@ -961,7 +997,7 @@ class BuiltinsMixin:
             nxt = []
             for s, names in outs:
                 for s2, v in self.ev(c, s):
-                    tmp = fresh_name("hoisted_" + c.attr)
+                    tmp = fresh_name("hoisted_" + (c.attr if isinstance(c, ast.Attribute) else c.func.id))
                     s2.env[tmp] = v
                     nxt.append((s2, {**names, key: tmp}))
             outs = nxt
@@ -971,6 +1007,12 @@ class BuiltinsMixin:
 
             class R(ast.NodeTransformer):
                 def visit_Attribute(self_, node):
+                    k = (node.lineno, node.col_offset, node.end_col_offset)
+                    if k in names:
+                        return ast.copy_location(ast.Name(id=names[k], ctx=ast.Load()), node)
+                    return self_.generic_visit(node)
+
+                def visit_Call(self_, node):
                     k = (node.lineno, node.col_offset, node.end_col_offset)
                     if k in names:
                         return ast.copy_location(ast.Name(id=names[k], ctx=ast.Load()), node)
